@@ -45,7 +45,7 @@ func (p *propC07) Prepare(seed uint64, tier string) int {
 	p.seed, p.tier = seed, tier
 	max := 30000
 	p.count = 40000
-	if tier == "thorough" {
+	if isThorough(tier) {
 		max = 400000
 		p.count = 1500000
 	}
